@@ -116,6 +116,7 @@ def run_spec(tape, spec, extra_threads=None, executes=1, style=0):
     CONF.load(_override=True, **conf)
   gate = core.Gate()
   wout = {}
+  ctx.wout = wout
   slow = None
   if spec.get('slow_log_s'):
     slow = bodies.SlowHandler(spec['slow_log_s'])
